@@ -16,7 +16,7 @@ DEFAULT = dict(
     tag=st.sampled_from(["@a", "@b", "@c", "@a", "@<a>", "@x<b>y", "@"]),
     ktype=st.sampled_from(KEYWORD_TYPES),
     max_scenarios=3, max_rules=3, max_steps=3, max_examples=3, max_rows=3, max_cols=3, max_tags=3,
-    p_bg=0.6, p_rule_bg=0.5, p_arg=0.4, p_outline=0.45, p_header=0.8,
+    p_shared_tag=0.12, p_bg=0.6, p_rule_bg=0.5, p_arg=0.4, p_outline=0.45, p_header=0.8,
     language=st.sampled_from(["en", "fr", "en-pirate"]),
     uri=st.sampled_from(["u.feature", "dir/x y.feature", "", "./features/a.feature", "../up.feature", "/abs/path.feature", "C:\\dir\\w.feature", "file:///x.feature",
                          " spaced .feature ", "ünï/ç.feature", "./", "a/./b/../c.feature"]),
@@ -44,12 +44,18 @@ def st_ast(draw, **over):
     prob = lambda p: draw(st.floats(0, 1, allow_nan=False)) < p
     count = lambda hi, lo=0: draw(st.integers(lo, hi))
 
+    seen_tags = []
+
     def tags():
         return [{"id": None, "location": dict(LOC), "name": draw(cfg["tag"])} for _ in range(count(cfg["max_tags"]))]
 
     def fix_tags(ts):
         for t in ts:
             t["id"] = gid()
+        if cfg.get("p_shared_tag") and seen_tags and prob(cfg["p_shared_tag"]):
+            # the very tag node of an outer / earlier level listed again (hand-built and templated ASTs do this): an equal element
+            ts.insert(count(len(ts)), dict(seen_tags[count(len(seen_tags) - 1)]))
+        seen_tags.extend(ts)
         return ts
 
     def row(width, values=None):
